@@ -458,7 +458,7 @@ theorem next_value (env : Env) (w v r : Bytes) (t : CST) (P off : Nat) (hw : Ws 
   simp only [hskip, hrun', hdrop, Bool.false_eq_true, if_false]
   by_cases hs : isSelfDelineated b = true
   · simp only [hs, if_true]
-  · simp only [hs, if_false]
+  · simp only [hs]
     rcases hdel with ⟨b', r1, hb', hs'⟩ | hnil | ⟨d', r1, hd', hs'⟩
     · simp only [List.cons.injEq] at hb'; rw [← hb'.1] at hs'; exact absurd hs' hs
     · subst hnil; rfl
